@@ -140,7 +140,7 @@ theorem denyLine_known : denyLine ∈ Gen.mwResponses := by decide
 /-- every `ip_network` call in `AccessControl.__init__` is strict (host bits set ⇒ `ValueError`) -/
 theorem strict_tie : Gen.aclNetworkStrict = true := by decide
 /-- the last (`/128`) attempt is not inside a `try`: its `ValueError` leaves the constructor -/
-theorem third_attempt_tie : Gen.aclThirdAttemptGuarded = false := by decide
+theorem third_attempt_tie : Gen.aclThirdAttemptGuarded = false ∧ Gen.aclThirdAttemptGuarded_found = true := by decide
 /-- `start_server` appends the components in the order the chain model assumes -/
 theorem chain_order_tie : Mw.chainOrder = Gen.chainOrder := by decide
 
